@@ -87,4 +87,23 @@ target("breezy/bzr/conflicts.py::ConflictList.select_conflicts",
        raises={"Exception": True}, canary=lambda c: Len(c.result[1]) == 0, quick_mutants=4, equivalent_mutants=MSG_EQUIV,
        note="block: selection and reporting, for an arbitrary id map")
 
+# ---- persistence: set_conflicts stores exactly the stanzas of the list it was given, every time
+ghost(stored=ANY, tree_write_locked=BOOL)     # stored: the stanzas last written to the tree's "conflicts" control file
+Stanzas = ufunc("Stanzas", ANY, ANY)          # ConflictList(conflicts).to_stanzas(): every field of every conflict (rio, external)
+ListOf = ufunc("ListOf", ANY, ANY)
+assumed("_mod_bzr_conflicts.ConflictList", pure=True, no_raise=True, returns=lambda c: ListOf(c.args[0]))
+assumed("conflict_list.to_stanzas", pure=True, returns=lambda c: Stanzas(c.conflict_list), raises={"Exception": None})
+assumed("self.lock_tree_write", modifies=["g.tree_write_locked"], ensures=lambda c: c.g.tree_write_locked, raises={"Exception": "unchanged"})
+assumed("self.lock_tree_write.__exit__", modifies=["g.tree_write_locked"], no_raise=True, ensures=lambda c: Not(c.g.tree_write_locked))
+assumed("self._put_rio", result=NONE, modifies=["g.stored"], requires=lambda c: And(c.g.tree_write_locked, eq(c.args[0], "conflicts")),
+        ensures=lambda c: c.g.stored == c.args[1], raises={"Exception": "unchanged"},
+        note="writes the control file atomically (put_file) or fails without effect")
+target("breezy/bzr/workingtree.py::InventoryWorkingTree.set_conflicts", params=dict(conflicts=ANY),
+       requires=lambda c: Not(c.g.tree_write_locked),
+       ensures={"stores_exactly_what_it_was_given": lambda c: And(c.g.stored == Stanzas(ListOf(c.old.conflicts)),
+                                                                  lift(c.calls("self._put_rio") == 1)),
+                "lock_released": lambda c: Not(c.g.tree_write_locked)},
+       raises={"Exception": lambda c: And(c.g.stored == c.old.g.stored, Not(c.g.tree_write_locked))},
+       canary=lambda c: c.g.stored == c.old.g.stored)
+
 undecided("stanza (rio) serialisation of conflicts and the merge-hash file format (external rio code)")
